@@ -249,13 +249,39 @@ def run(ctx, rep) -> None:
     rep.check(ok, "C15.R5", "a re-armed stage starts clean", "status NOT_STARTED, outputs emptied, tasks NOT_STARTED", "src/stabilize/handlers/jump_to_stage/reset.py", rs.lineno, disc="clean")
 
     # ---- R6 --------------------------------------------------------------------------------------
+    # per-iteration keys: every `_`-prefixed literal key some handler (other than the jump itself) writes onto a stage's context,
+    # minus the reviewed keys that must SURVIVE a re-arm
+    SURVIVES = {
+        "_buffered_signals": "the mailbox of not yet delivered persistent signals belongs to the stage, not to one iteration (C18)",
+        "_inherited_keys": "planner bookkeeping consumed by the next planning (C16.R4)",
+        "_mi_instance_count": "multi-instance parent: its instances are separate stages that exist across iterations (not reviewed further)",
+        "_on_failure_planned": "set when on-failure stages were planned; those synthetic stages are reset with their parent (not reviewed further)",
+    }
     book = set()
+    written = {}
+    for f_ in prog.all_functions():
+        if not f_.module.name.startswith("stabilize.handlers") or f_.module.name.startswith("stabilize.handlers.jump_to_stage"):
+            continue
+        for n_ in ast.walk(f_.node):
+            if isinstance(n_, ast.Assign):
+                for t_ in n_.targets:
+                    if isinstance(t_, ast.Subscript) and norm(t_.value).endswith(".context") and isinstance(t_.slice, ast.Constant) and isinstance(t_.slice.value, str) and t_.slice.value.startswith("_"):
+                        written.setdefault(t_.slice.value, set()).add(f_.qualname)
+    for k in sorted(written):
+        if k in SURVIVES or k in BUDGET_KEYS:
+            continue
+        book.add(k)
     for k in ("_join_fired", "_completed_branches", "_activated_branches"):
         ws = [s for s in key_sites(prog, k) if s["op"] == "write" and not s["qual"].startswith("JumpToStageHandler")]
         if ws:
             book.add(k)
+    for k, why in SURVIVES.items():
+        if k in written:
+            rep.notes.append(f"C15.R6: `{k}` is written by {sorted(written[k])} and deliberately survives a re-arm: {why}")
     for k in sorted(book):
-        rep.check(k in cleared, "C15.R6", f"re-arm clears {k}", f"written by other handlers per iteration; reset_stage_for_retry clears {sorted(cleared)}", "src/stabilize/handlers/jump_to_stage/reset.py", rs.lineno, disc=k)
+        rep.check(k in cleared, "C15.R6", f"re-arm clears {k}", f"written by {sorted(written.get(k, []))[:2] or 'other handlers'} per iteration; reset_stage_for_retry clears {sorted(cleared)}" + ("" if k in cleared else
+                  f": `{k}` set in one iteration is still there in the next - e.g. a delivered signal (`_signal_name`) is read again by the re-armed task, which then never suspends: one approval waves every later iteration through"),
+                  "src/stabilize/handlers/jump_to_stage/reset.py", rs.lineno, disc=k)
     rep.floor("per-iteration bookkeeping keys", len(book), 3)
     _shared_inherited_rule(ctx, rep)
 
